@@ -51,7 +51,7 @@ CHECKS = {
             "replication in progress with a non-empty stored queue (VerifC13PendingQueue): the replicator is stuck on a block of a remote chain when the snapshot is saved; a fresh instance loads it while the pending block (optionally every block of that chain) is unavailable; loading must return without error and hold the saved log in order, plus at most entries of the replication that was in progress",
             "replication / writes in progress (VerifC13Concurrent): a local write, or the Sync whose join ends a replication, is started at ANY visible operation of SaveSnapshot and runs until it blocks; the snapshot must load, and reload to a log between the one held when the save started and the one held when it ended",
         ],
-        "outside": ["unixfs chunking", "documents longer than 1 MiB", "JSON byte content"],
+        "outside": ["unixfs chunking", "documents longer than 1 MiB", "JSON byte content", "the size clause on logs of more than 3 entries (with 4 entries the solver answers unknown on the file-offset arithmetic; the symbolic-size group therefore keeps the single-branch shapes of at most T entries, the uneven / merged shapes run with concrete sizes)"],
     },
     "C18": {
         "groups": [{
